@@ -59,11 +59,11 @@ class Variables:
         self._variables.pop(name)
 
     def inline_variables(self, sql: str) -> str:
-        for name, value in self._variables.items():
-            sql = re.sub(rf"\${name}", value, sql, flags=re.IGNORECASE)
+        def replace(match: re.Match) -> str:
+            # substitute whole references only (so $var doesn't rewrite $var1) and values verbatim (no regex escapes)
+            name = match.group(1).upper()
+            if name not in self._variables:
+                raise snowflake.connector.errors.ProgrammingError(msg=f"Session variable '${name}' does not exist")
+            return self._variables[name]
 
-        if remaining_variables := re.search(r"(?<!\$)\$\w+", sql):
-            raise snowflake.connector.errors.ProgrammingError(
-                msg=f"Session variable '{remaining_variables.group().upper()}' does not exist"
-            )
-        return sql
+        return re.sub(r"(?<!\$)\$(\w+)", replace, sql)
